@@ -800,6 +800,10 @@ impl Gen<'_> {
                 }
             }
             op.padseed = if self.r.pct(75) { self.r.next() | 1 } else { 0 };
+        } else if self.r.pct(50) {
+            // no padding requested: v_frame still rounds every row up to 64 bytes, and those
+            // invisible alignment slots get arbitrary contents too
+            op.padseed = self.r.next() | 1;
         }
         op.dataseed = self.r.next();
         op.datamode = match self.r.below(20) {
